@@ -194,6 +194,13 @@ impl Spec {
                 self.weaks -= 1;
                 Some(("()".into(), false))
             }
+            "clone_weak" => {
+                if self.weaks == 0 {
+                    return None;
+                }
+                self.weaks += 1;
+                Some(("()".into(), false))
+            }
             "into_shared" => {
                 if self.shared || !need_owner {
                     return None;
@@ -237,10 +244,11 @@ pub fn run_line(line: &str, out: &mut String) {
     let mut owners: Vec<SharedObservable<Val>> = vec![];
     let mut weaks: Vec<WeakObservable<Val>> = vec![];
     let mut subs: Vec<SubH> = vec![];
+    let via_default = ops.len() % 2 == 1; // Default::default() == new(val(0))
     if head == "unique" {
-        unique = Some(Observable::new(val(0)));
+        unique = Some(if via_default { Observable::default() } else { Observable::new(val(0)) });
     } else {
-        owners.push(SharedObservable::new(val(0)));
+        owners.push(if via_default { SharedObservable::default() } else { SharedObservable::new(val(0)) });
     }
     let mut spec = Spec { cur: 0, shared: head != "unique", owners: 1, weaks: 0, unseen: vec![] };
     let mut res: Vec<String> = vec![];
@@ -257,7 +265,7 @@ pub fn run_line(line: &str, out: &mut String) {
             "clone" | "downgrade" => !owners.is_empty(),
             "drop_owner" => unique.is_some() || !owners.is_empty(),
             "into_shared" => unique.is_some(),
-            "upgrade" | "drop_weak" => !weaks.is_empty(),
+            "upgrade" | "drop_weak" | "clone_weak" => !weaks.is_empty(),
             _ => a.first().map_or(false, |k| subs.get(*k as usize).map_or(false, |s| s.sub.is_some())),
         };
         if !possible {
@@ -287,7 +295,13 @@ pub fn run_line(line: &str, out: &mut String) {
                     });
                     "()".into()
                 }
-                "get" => format!("={}", show(*Observable::get(u))),
+                "get" => {
+                    if turn % 2 == 0 {
+                        format!("={}", show(*Observable::get(u)))
+                    } else {
+                        format!("={}", show(**u))
+                    }
+                }
                 "subscribe" => {
                     subs.push(new_subh(Observable::subscribe(u)));
                     format!("#{}", subs.len() - 1)
@@ -308,7 +322,7 @@ pub fn run_line(line: &str, out: &mut String) {
                     owners.push(Observable::into_shared(unique.take().unwrap()));
                     "()".into()
                 }
-                _ => sub_op(name, &a, &mut subs),
+                _ => sub_op(name, &a, &mut subs, turn),
             }
         } else if !owners.is_empty()
             && matches!(
@@ -323,6 +337,9 @@ pub fn run_line(line: &str, out: &mut String) {
                 "set" => {
                     if use_guard {
                         let mut g = o.write();
+                        format!("={}", show(ObservableWriteGuard::set(&mut g, val(a[0]))))
+                    } else if turn % 3 == 2 {
+                        let mut g = o.try_write().ok().expect("try_write on a free lock");
                         format!("={}", show(ObservableWriteGuard::set(&mut g, val(a[0]))))
                     } else {
                         format!("={}", show(o.set(val(a[0]))))
@@ -385,8 +402,15 @@ pub fn run_line(line: &str, out: &mut String) {
                     "()".into()
                 }
                 "get" => {
-                    if use_guard {
+                    if use_guard && turn % 2 == 0 {
                         format!("={}", show(*o.read()))
+                    } else if use_guard {
+                        // reading through a write guard (Deref for ObservableWriteGuard)
+                        let g = o.write();
+                        format!("={}", show(*g))
+                    } else if turn % 3 == 2 {
+                        // single-threaded: the lock is free, so try_read succeeds
+                        format!("={}", show(*o.try_read().ok().expect("try_read on a free lock")))
                     } else {
                         format!("={}", show(o.get()))
                     }
@@ -435,7 +459,12 @@ pub fn run_line(line: &str, out: &mut String) {
                     weaks.remove(i);
                     "()".into()
                 }
-                _ => sub_op(name, &a, &mut subs),
+                "clone_weak" => {
+                    let c = weaks[turn % weaks.len()].clone();
+                    weaks.push(c);
+                    "()".into()
+                }
+                _ => sub_op(name, &a, &mut subs, turn),
             }
         };
         // ---- wakes ----
@@ -489,14 +518,27 @@ pub fn run_line(line: &str, out: &mut String) {
     out.push('\n');
 }
 
-fn sub_op(name: &str, a: &[u32], subs: &mut Vec<SubH>) -> String {
+fn sub_op(name: &str, a: &[u32], subs: &mut Vec<SubH>, turn: usize) -> String {
     let k = a[0] as usize;
     match name {
         "poll" => {
+            // the three equivalent ways of polling a subscriber once: the Stream impl, the `Next`
+            // future returned by next(), the future of next_ref() (value copied, guard dropped)
             let waker = subs[k].waker.clone();
             let mut cx = Context::from_waker(&waker);
             let s = subs[k].sub.as_mut().unwrap();
-            match Pin::new(s).poll_next(&mut cx) {
+            let r: Poll<Option<Val>> = match turn % 3 {
+                0 => Pin::new(s).poll_next(&mut cx),
+                1 => {
+                    let mut f = s.next();
+                    std::future::Future::poll(Pin::new(&mut f), &mut cx)
+                }
+                _ => {
+                    let mut f = Box::pin(s.next_ref());
+                    std::future::Future::poll(f.as_mut(), &mut cx).map(|o| o.map(|g| *g))
+                }
+            };
+            match r {
                 Poll::Ready(Some(v)) => format!("R:{}", show(v)),
                 Poll::Ready(None) => "N".into(),
                 Poll::Pending => {
@@ -505,7 +547,14 @@ fn sub_op(name: &str, a: &[u32], subs: &mut Vec<SubH>) -> String {
                 }
             }
         }
-        "next_now" => format!("={}", show(subs[k].sub.as_mut().unwrap().next_now())),
+        "next_now" => {
+            let s = subs[k].sub.as_mut().unwrap();
+            if turn % 2 == 0 {
+                format!("={}", show(s.next_now()))
+            } else {
+                format!("={}", show(*s.next_ref_now()))
+            }
+        }
         "sget" => format!("={}", show(subs[k].sub.as_ref().unwrap().get())),
         "sread" => format!("={}", show(*subs[k].sub.as_ref().unwrap().read())),
         "reset" => {
